@@ -25,9 +25,9 @@ func c02Scenarios(tier string) []*Scenario {
 		}
 		out = append(out, sc1("C02", n+"|"+rpcName(rpc), tr, cancel, rpc))
 	}
-	rets := []string{"ret:st:5", "ret:plain", "ret:eof", "ret:canceled", "ret:okerr"}
+	rets := []string{"ret:st:5", "ret:plain", "ret:eof", "ret:canceled", "ret:okerr", "ret:wrapdl"}
 	if tier == "thorough" {
-		rets = append(rets, "ret:deadline", "ret:st:17", "ret:ok")
+		rets = append(rets, "ret:deadline", "ret:st:17", "ret:ok", "ret:wrapcancel")
 	}
 	for _, tr := range []string{"inproc", "http"} {
 		for _, ret := range rets {
